@@ -1,7 +1,7 @@
 (* The stream cursor and the player's stepping logic regenerated from the source (Gen/Stepper_gen.v,
    translate/units/stepper.py) against their hand-written readings (Emu/StepperPre.v, m_...), the stream
    model of C19/C12 (Emu/StreamDefs.v) and the player model of C03 (Emu/PlayerDefs.v). *)
-From Coq Require Import ZArith List Bool Arith Lia ZifyNat ZifyBool.
+From Coq Require Import ZArith List Bool Arith Lia ZifyNat ZifyBool Permutation.
 From OV Require Import Base.CInt Emu.LoaderPre Emu.HeapDefs Emu.PlayerDefs Emu.StepperPre.
 From OV Require Import Proofs.HeapProofs Proofs.PlayerProofs.
 From OV Require Gen.Loader_gen Gen.LoaderStep_gen Gen.Stepper_gen.
@@ -450,4 +450,1034 @@ Proof.
   - split; [intros [e He]; discriminate|discriminate].
   - split; [intros [e He]; discriminate|discriminate].
   - subst. split; [reflexivity|eauto].
+Qed.
+
+(* ------------------------------------------------------------------ loading: load_obs / check_stream_header from the source *)
+
+Lemma magic_test a0 a1 a2 a3 :
+  negb (memcmp_lit [a0; a1; a2; a3] [111; 118; 110; 105] 4 =? 0) =
+  negb (list_eqb [a0; a1; a2; a3] Loader_gen.c_OVNI_STREAM_MAGIC).
+Proof.
+  unfold memcmp_lit, list_eqb, Loader_gen.c_OVNI_STREAM_MAGIC. change (Z.to_nat 4) with 4%nat.
+  cbn [firstn leqb length Nat.eqb combine forallb fst snd andb].
+  destruct (a0 =? 111), (a1 =? 118), (a2 =? 110), (a3 =? 105); reflexivity.
+Qed.
+
+Theorem load_obs_from_source sx st id path :
+  (id < length (streams st))%nat ->
+  let g := nth id (streams st) g0 in
+  blen (g_buf g) < 2 ^ 63 ->
+  match load_obs (g_buf g) (g_junk g) (negb (g_unsorted g =? 0)) with
+  | LoadErr _ => Stepper_gen.load_obs (Some id) path sx st = Fail E_FAIL
+  | Loaded s =>
+      exists g', Stepper_gen.load_obs (Some id) path sx st = Done tt (put st id g') /\
+        (g_cur g = None -> g_lastclock g = 0 -> abs g' = s) /\
+        (g_cur g = None -> g_clkoff g = 0 -> gwf id g') /\
+        g_buf g' = g_buf g /\ g_junk g' = g_junk g
+  end.
+Proof.
+  intros Hid g Hsz.
+  unfold load_obs, Stepper_gen.load_obs.
+  unfold open, close, load_stream_fd, bind_. unfold bind, ite, need, ret, fail. cbn [is_null negb andb gs].
+  change (3 =? - (1)) with false. cbv iota. fold g.
+  destruct (blen (g_buf g) =? 0) eqn:E0; [reflexivity|].
+  rewrite putp_some by exact Hid. fold g.
+  set (g1 := w_size (blen (g_buf g)) g).
+  (* check_stream_header on the stream with its size set *)
+  unfold Stepper_gen.check_stream_header, check_stream_header.
+  unfold bind, eval, ite, need, fail. cbn [is_null negb andb].
+  unfold get_stream_size, get_stream_buf, hdr_of_byte, get_ovni_stream_header_magic, get_ovni_stream_header_version.
+  cbn [gs is_null negb]. rewrite !nth_put by exact Hid.
+  change (cast_int64 Loader_gen.c_sizeof_struct_ovni_stream_header) with 8.
+  change Loader_gen.c_sizeof_struct_ovni_stream_header with 8.
+  cbn [g1 w_size g_size g_buf g_junk].
+  destruct (blen (g_buf g) <? 8) eqn:E8; [reflexivity|].
+  unfold magic_of. cbn [seq map]. rewrite magic_test. fold (magic_of (g_buf g) (g_junk g)).
+  change (0 + pre_off_magic) with pre_off_magic. change (0 + pre_off_version) with pre_off_version.
+  change (cast_uint32 1) with Loader_gen.c_OVNI_STREAM_VERSION.
+  set (mb := negb (list_eqb _ Loader_gen.c_OVNI_STREAM_MAGIC)).
+  set (vb := negb (rd_le (g_buf g) (g_junk g) pre_off_version 4 =? Loader_gen.c_OVNI_STREAM_VERSION)).
+  unfold ret_status, ret, fail, stop1.
+  destruct mb, vb; cbn [orb]; try reflexivity.
+  change (0 =? 0) with true. cbv iota.
+  unfold set_stream_offset, set_stream_usize, set_stream_active, get_stream_offset, get_stream_size.
+  stp Hid. change (g_size g1) with (blen (g_buf g)). subst g1.
+  destruct (8 <? blen (g_buf g)) eqn:E1.
+  - stp Hid. eexists. split; [reflexivity|]. unfold abs, gwf.
+    cbn [w_active w_offset w_size g_buf g_junk g_cur g_size g_lastclock g_deltaclock g_clkoff g_active g_unsorted g_offset].
+    repeat split; auto.
+    + intros Hc Hl. rewrite Hc, Hl. reflexivity.
+  - destruct (8 =? blen (g_buf g)) eqn:E2; [|reflexivity].
+    stp Hid. eexists. split; [reflexivity|]. unfold abs, gwf.
+    cbn [w_active w_offset w_size g_buf g_junk g_cur g_size g_lastclock g_deltaclock g_clkoff g_active g_unsorted g_offset].
+    repeat split; auto.
+    + intros Hc Hl. rewrite Hc, Hl. reflexivity.
+Qed.
+
+(* ------------------------------------------------------------------ check_clock_gate from the source = PlayerDefs.gate_ok *)
+
+(* the corrected clock of the loaded event of an active stream, as check_clock_gate reads it *)
+Definition sclk (st : pstate) (id : nat) : list Z :=
+  let g := nth id (streams st) g0 in
+  if g_active g =? 0 then [] else [cast_int64 (get_header_clock (evview st (g_cur g))) + g_clkoff g].
+Definition active_clocks (st : pstate) (ids : list nat) : list Z := flat_map (sclk st) ids.
+
+(* PlayerDefs.gate_ok on a list of first clocks *)
+Definition gate_of (l : list Z) : bool :=
+  match l with [] => true | t0 :: _ => forallb (fun c => Z.abs (t0 - c) <=? MAXGATE) l end.
+
+Lemma gate_ok_of ss : gate_ok ss = gate_of (first_clocks ss).
+Proof. reflexivity. Qed.
+
+Definition gstep1 (c : Z * Z * Z) (x : Z) : Z * Z * Z :=
+  let '(f, t, r) := c in
+  let t' := if negb (f =? 0) then x else t in
+  (0, t', if Z.abs (t' - x) >? MAXGATE then -1 else r).
+Definition gfold (c : Z * Z * Z) (l : list Z) : Z * Z * Z := fold_left gstep1 l c.
+
+Lemma foreach_gate (body : ptr_stream -> Z * Z * Z -> M (Z * Z * Z)) sx st :
+  (forall id c, body (Some id) c sx st = Done (gfold c (sclk st id)) st) ->
+  forall ids c, foreach_ids ids body c sx st = Done (gfold c (active_clocks st ids)) st.
+Proof.
+  intros Hb. induction ids as [|i t IH]; intros c; cbn [foreach_ids active_clocks flat_map]; [reflexivity|].
+  rewrite Hb. unfold gfold. rewrite fold_left_app. apply IH.
+Qed.
+
+Lemma gfold_started l : forall t r,
+  gfold (0, t, r) l = (0, t, if forallb (fun c => Z.abs (t - c) <=? MAXGATE) l then r else -1).
+Proof.
+  induction l as [|x l IH]; intros t r; cbn [gfold fold_left forallb]; [reflexivity|].
+  unfold gstep1 at 2. cbn [Z.eqb negb]. fold (gfold (0, t, if Z.abs (t - x) >? MAXGATE then -1 else r) l). rewrite IH.
+  destruct (Z.gtb_spec (Z.abs (t - x)) MAXGATE); destruct (Z.leb_spec (Z.abs (t - x)) MAXGATE); try lia; cbn [andb].
+  - destruct (forallb _ l); reflexivity.
+  - reflexivity.
+Qed.
+
+Lemma gfold_gate l : let '(_, _, r) := gfold (1, 0, 0) l in (r =? 0) = gate_of l.
+Proof.
+  destruct l as [|x l]; [reflexivity|]. cbn [gfold fold_left gate_of]. unfold gstep1 at 2. cbn [Z.eqb negb].
+  rewrite Z.sub_diag. change (Z.abs 0 >? MAXGATE) with false. cbv iota.
+  fold (gfold (0, x, 0) l). rewrite gfold_started. cbn [forallb]. rewrite Z.sub_diag.
+  change (Z.abs 0 <=? MAXGATE) with true. cbn [andb].
+  destruct (forallb _ l); reflexivity.
+Qed.
+
+Theorem check_clock_gate_gen sx st :
+  Stepper_gen.check_clock_gate (Some tt) sx st =
+  if gate_of (active_clocks st (seq 0 (length (streams st)))) then Done tt st else Fail E_FAIL.
+Proof.
+  unfold Stepper_gen.check_clock_gate. unfold bind, eval, foreach_stream.
+  match goal with |- context [foreach_ids ?ids ?bd ?c sx st] =>
+    rewrite (foreach_gate bd sx st)
+  end.
+  - pose proof (gfold_gate (active_clocks st (seq 0 (length (streams st))))) as G.
+    change (1, 0, 0) with (1, 0, 0) in G.
+    destruct (gfold (1, 0, 0) (active_clocks st (seq 0 (length (streams st))))) as [[f t] r].
+    unfold ite, fail, ret. rewrite <- G. destruct (r =? 0); reflexivity.
+  - intros id [[f t] r]. unfold need, ite, bind, eval, ret, sclk.
+    unfold Stepper_gen.stream_ev_safe, Stepper_gen.stream_ev, Stepper_gen.stream_evclock_safe, Stepper_gen.stream_evclock,
+      get_stream_active, get_stream_cur_ev, get_stream_clock_offset, ovni_ev_get_clock, llabs.
+    cbn [is_null negb andb gs].
+    destruct (g_active (nth id (streams st) g0) =? 0); cbn [negb gfold fold_left]; [reflexivity|].
+    unfold gstep1. change (3600 * 1000 * 1000 * 1000) with MAXGATE.
+    destruct (Z.eqb_spec f 0) as [->|Hf]; cbn [negb]; destruct (Z.abs _ >? MAXGATE); reflexivity.
+Qed.
+
+(* ------------------------------------------------------------------ player_init from the source *)
+
+Lemma m_step_stream_len st id s :
+  (m_step_stream st id = Done tt s \/ m_step_stream st id = Stop s) -> length (streams s) = length (streams st).
+Proof.
+  unfold m_step_stream. destruct (g_active (nth id (streams st) g0) =? 0).
+  - intros [H|H]; inversion H; reflexivity.
+  - destruct (m_stream_step st id) as [[[|] g]|]; intros [H|H]; inversion H; subst; cbn [streams put]; apply length_upd.
+Qed.
+
+Lemma foreach_init unsorted (body : ptr_stream -> unit -> M unit) sx :
+  (forall id st, (id < length (streams st))%nat ->
+     body (Some id) tt sx st = match m_init_stream unsorted st id with Done _ s | Stop s => Done tt s | Fail e => Fail e end) ->
+  forall ids st, (forall i, In i ids -> (i < length (streams st))%nat) ->
+    foreach_ids ids body tt sx st = m_init_all unsorted ids st.
+Proof.
+  intros Hb. induction ids as [|i t IH]; intros st Hin; cbn [foreach_ids m_init_all]; [reflexivity|].
+  rewrite Hb by (apply Hin; left; reflexivity).
+  assert (Hlen : forall s, (m_init_stream unsorted st i = Done tt s \/ m_init_stream unsorted st i = Stop s) ->
+                           length (streams s) = length (streams st)).
+  { unfold m_init_stream. intros s H.
+    set (st1 := if negb (unsorted =? 0) then put st i (w_unsorted 1 (nth i (streams st) g0)) else st) in *.
+    assert (L1 : length (streams st1) = length (streams st)) by (unfold st1; destruct (negb (unsorted =? 0)); [apply put_length|reflexivity]).
+    rewrite <- L1. destruct (m_step_stream st1 i) as [[] s'|s'|e] eqn:E.
+    - destruct H as [H|H]; inversion H; subst. apply (m_step_stream_len st1 i). left. exact E.
+    - destruct H as [H|H]; inversion H; subst. apply (m_step_stream_len st1 i). right. exact E.
+    - destruct H as [H|H]; discriminate. }
+  destruct (m_init_stream unsorted st i) as [[] s|s|e] eqn:E; try reflexivity.
+  - apply IH. intros j Hj. rewrite (Hlen s (or_introl eq_refl)). apply Hin. right. exact Hj.
+  - apply IH. intros j Hj. rewrite (Hlen s (or_intror eq_refl)). apply Hin. right. exact Hj.
+Qed.
+
+(* player_init(player, trace, unsorted) as generated = reset of the player, the first step of every stream in list order
+   (unsorted flag first when asked), then check_clock_gate when sorted *)
+Theorem player_init_gen unsorted sx st :
+  Stepper_gen.player_init (Some tt) (Some tt) unsorted sx st =
+  let st0 := mk_pstate (streams st) (mk_gplayer [] 0 0 0 0 1 unsorted None None) in
+  match m_init_all unsorted (seq 0 (length (streams st))) st0 with
+  | Done _ s =>
+      if unsorted =? 0
+      then (if gate_of (active_clocks s (seq 0 (length (streams s)))) then Done tt s else Fail E_FAIL)
+      else Done tt s
+  | Stop s => Stop s
+  | Fail e => Fail e
+  end.
+Proof.
+  unfold Stepper_gen.player_init.
+  unfold bind_ at 1 2 3 4 5 6. unfold bind at 1 2 3 4 5 6.
+  unfold zero_player, heap_init, set_player_first_event, set_player_stream, set_player_trace, set_player_unsorted,
+    addr_player_heap, putq, need, eval, bind. cbn [is_null negb streams pl q0 w_heap w_first_event w_stream w_qunsorted
+    q_heap q_firstclock q_lastclock q_deltaclock q_nprocessed q_first_event q_unsorted q_stream q_ev].
+  change (w_qunsorted unsorted (w_stream None (w_first_event 1 (w_heap [] q0)))) with (mk_gplayer [] 0 0 0 0 1 unsorted None None).
+  cbv zeta. set (st0 := mk_pstate (streams st) (mk_gplayer [] 0 0 0 0 1 unsorted None None)).
+  unfold foreach_stream. change (length (streams st0)) with (length (streams st)).
+  match goal with |- context [foreach_ids ?ids ?bd tt sx st0] => rewrite (foreach_init unsorted bd sx) end.
+  - destruct (m_init_all unsorted (seq 0 (length (streams st))) st0) as [[] s|s|e]; try reflexivity.
+    unfold bind_, bind, ite, ret. destruct (unsorted =? 0); [|reflexivity].
+    rewrite check_clock_gate_gen. destruct (gate_of _); reflexivity.
+  - intros id st1 Hid. unfold ite, m_init_stream.
+    assert (K : forall st2, (id < length (streams st2))%nat ->
+      match status (Stepper_gen.step_stream (Some tt) (Some id)) sx st2 with
+      | Done a st' => if a >? 0 then ret tt sx st' else if a <? 0 then fail E_FAIL sx st' else ret tt sx st'
+      | Stop st' => Stop st'
+      | Fail e => Fail e
+      end = match m_step_stream st2 id with Done _ s | Stop s => Done tt s | Fail e => Fail e end).
+    { intros st2 H2. unfold status. rewrite (step_stream_gen sx st2 id H2).
+      destruct (m_step_stream st2 id) as [[] s|s|e]; try reflexivity.
+      destruct (Nat.eqb_spec e E_FAIL) as [->|Hne]; reflexivity. }
+    destruct (negb (unsorted =? 0)).
+    + unfold bind_, bind. rewrite (stream_allow_unsorted_gen sx st1 id Hid).
+      rewrite K by (rewrite put_length; exact Hid).
+      destruct (m_step_stream _ id) as [[] s|s|e]; reflexivity.
+    + rewrite K by exact Hid. destruct (m_step_stream st1 id) as [[] s|s|e]; reflexivity.
+  - intros i Hi. apply in_seq in Hi. cbn [st0 streams]. lia.
+Qed.
+
+(* ------------------------------------------------------------------ the load refusals of C12, for the generated load_obs *)
+From OV Require Import Emu.LoaderSpec.
+
+Lemma run_load_err bs junk u e : run bs junk u = RunLoadErr e -> load_obs bs junk u = LoadErr e.
+Proof.
+  unfold run, run_with. destruct (load_obs bs junk u) as [e'|s]; [intros H; inversion H; reflexivity|].
+  destruct (s_active s); [destruct (walk _ _ s)|]; discriminate.
+Qed.
+
+Theorem load_refusals_from_source sx st id path :
+  (id < length (streams st))%nat ->
+  let g := nth id (streams st) g0 in
+  blen (g_buf g) < 2 ^ 63 ->
+  (blen (g_buf g) < 8 \/
+   (exists k, (k < 4)%nat /\ sbyte (g_buf g) (Z.of_nat k) <> nth k spec_magic 0) \/
+   sle (g_buf g) 4 4 <> 1) ->
+  Stepper_gen.load_obs (Some id) path sx st = Fail E_FAIL.
+Proof.
+  intros Hid g Hsz H.
+  assert (E : exists e, load_obs (g_buf g) (g_junk g) (negb (g_unsorted g =? 0)) = LoadErr e).
+  { destruct H as [H|[[k [Hk H]]|H]].
+    - destruct (short_rejected (g_buf g) (g_junk g) (negb (g_unsorted g =? 0)) H) as [e He]. exists e. apply run_load_err. exact He.
+    - destruct (bad_magic_rejected (g_buf g) (g_junk g) (negb (g_unsorted g =? 0)) k Hk H) as [e He]. exists e. apply run_load_err. exact He.
+    - destruct (bad_version_rejected (g_buf g) (g_junk g) (negb (g_unsorted g =? 0)) H) as [e He]. exists e. apply run_load_err. exact He. }
+  destruct E as [e E]. pose proof (load_obs_from_source sx st id path Hid Hsz) as L. fold g in L. rewrite E in L. exact L.
+Qed.
+
+(* ------------------------------------------------------------------ the byte level against the model's event lists *)
+
+(* cur_ev is NULL or &buf[offset] of the same stream: then stream_step reads only the stream's own record *)
+Definition own_cur (id : nat) (g : gstream) : Prop := g_cur g = None \/ g_cur g = Some (id, g_offset g).
+
+(* a state that holds g as stream id: the single-stream reading of stream_step *)
+Definition cst (id : nat) (g : gstream) : pstate := mk_pstate (upd (repeat g0 (S id)) id g) q0.
+Definition sstep (id : nat) (g : gstream) : option (bool * gstream) := m_stream_step (cst id g) id.
+
+Lemma cst_nth id g : nth id (streams (cst id g)) g0 = g.
+Proof. unfold cst. cbn [streams]. apply nth_upd_same. rewrite repeat_length. lia. Qed.
+
+Lemma step_local st st' id :
+  nth id (streams st) g0 = nth id (streams st') g0 -> own_cur id (nth id (streams st) g0) ->
+  m_stream_step st id = m_stream_step st' id.
+Proof.
+  intros E Hc. unfold m_stream_step. rewrite <- E. set (g := nth id (streams st) g0) in *.
+  destruct Hc as [Hc|Hc]; rewrite Hc; cbn [is_null negb andb evview]; [reflexivity|].
+  fold g. rewrite <- E. reflexivity.
+Qed.
+
+Lemma step_own st id b g' : own_cur id (nth id (streams st) g0) -> m_stream_step st id = Some (b, g') -> own_cur id g'.
+Proof.
+  intros _. unfold m_stream_step. set (g := nth id (streams st) g0).
+  destruct (g_active g =? 0); [discriminate|].
+  destruct (negb (is_null (g_cur g))); cbn [andb].
+  - destruct (_ >? g_size g); [discriminate|]. destruct (_ =? g_size g).
+    + intros H. inversion H; subst. left. reflexivity.
+    + destruct (_ <? 0); [discriminate|]. destruct (_ && _); [discriminate|].
+      intros H. inversion H; subst. right. reflexivity.
+  - destruct (_ <? 0); [discriminate|]. destruct (_ && _); [discriminate|].
+    intros H. inversion H; subst. right. reflexivity.
+Qed.
+
+(* the only dependence of stream_step on the unsorted flag is the backwards test *)
+Lemma step_flag st id :
+  let g := nth id (streams st) g0 in
+  own_cur id g ->
+  m_stream_step st id =
+  match sstep id (w_unsorted 1 g) with
+  | None => None
+  | Some (false, g') => Some (false, w_unsorted (g_unsorted g) g')
+  | Some (true, g') =>
+      if (g_unsorted g =? 0) && (g_lastclock g' <? g_lastclock g) then None
+      else Some (true, w_unsorted (g_unsorted g) g')
+  end.
+Proof.
+  intros g Hc. unfold sstep, m_stream_step. rewrite cst_nth. fold g.
+  assert (Ev : evview (cst id (w_unsorted 1 g)) (g_cur (w_unsorted 1 g)) = evview st (g_cur g)).
+  { cbn [w_unsorted g_cur]. destruct Hc as [Hc|Hc]; rewrite Hc; cbn [evview]; [reflexivity|].
+    rewrite cst_nth. fold g. reflexivity. }
+  rewrite Ev. destruct g as [bf jk cu sz lc dc co ac un of]. cbn [w_unsorted g_active g_cur g_offset g_size g_buf g_junk g_clkoff g_unsorted g_lastclock].
+  destruct (ac =? 0); [reflexivity|].
+  change (1 =? 0) with false. cbn [andb].
+  destruct (negb (is_null cu)); cbn [andb].
+  - destruct (_ >? sz); [reflexivity|]. destruct (_ =? sz); [reflexivity|].
+    destruct (_ <? 0); [reflexivity|].
+    cbn [w_lastclock w_deltaclock w_cur w_offset g_lastclock g_buf g_junk g_cur g_size g_deltaclock g_clkoff g_active g_unsorted g_offset w_unsorted].
+    destruct ((un =? 0) && _); reflexivity.
+  - destruct (_ <? 0); [reflexivity|].
+    cbn [w_lastclock w_deltaclock w_cur w_offset g_lastclock g_buf g_junk g_cur g_size g_deltaclock g_clkoff g_active g_unsorted g_offset w_unsorted].
+    destruct ((un =? 0) && _); reflexivity.
+Qed.
+
+(* the events a stream will deliver from its present cursor on: (raw clock, payload) in file order; the payload
+   of the model is not observed by the player *)
+Inductive Delivers (id : nat) : gstream -> list PlayerDefs.ev -> Prop :=
+| D_inactive g : (g_active g =? 0) = true -> Delivers id g []
+| D_end g g' : (g_active g =? 0) = false -> sstep id (w_unsorted 1 g) = Some (false, g') -> Delivers id g []
+| D_ev g g' e t : (g_active g =? 0) = false -> sstep id (w_unsorted 1 g) = Some (true, g') ->
+    g_lastclock g' = fst e + g_clkoff g -> Delivers id (w_unsorted (g_unsorted g) g') t -> Delivers id g (e :: t).
+
+(* hypothesis 1 of C03_player_step_refines_ploop_partial, discharged from Delivers *)
+Lemma delivers_iface sorted offs st id rem :
+  let g := nth id (streams st) g0 in
+  own_cur id g -> Delivers id g rem -> (g_unsorted g =? 0) = sorted -> nth id offs 0 = g_clkoff g ->
+  stream_iface sorted offs st id (g_lastclock g) rem.
+Proof.
+  intros g Hc D Hs Ho. unfold stream_iface. fold g. cbv zeta. rewrite (step_flag st id Hc). fold g.
+  inversion D as [g1 Ha E1 E2|g1 g' Ha Hst E1 E2|g1 g' e t Ha Hst Hl Dt E1 E2]; subst.
+  - left. exact Ha.
+  - right. split; [exact Ha|]. rewrite Hst. eauto.
+  - split; [exact Ha|]. rewrite Hst. unfold corr. rewrite Ho, <- Hl.
+    destruct (_ && (g_lastclock g' <? g_lastclock g)); [reflexivity|].
+    eexists. split; [reflexivity|]. reflexivity.
+Qed.
+
+(* what a successful step leaves: the stream delivers the rest, from the new record *)
+Lemma delivers_step st id e t b g' :
+  let g := nth id (streams st) g0 in
+  own_cur id g -> Delivers id g (e :: t) -> m_stream_step st id = Some (b, g') ->
+  b = true /\ Delivers id g' t /\ g_lastclock g' = fst e + g_clkoff g /\ g_unsorted g' = g_unsorted g /\
+  g_clkoff g' = g_clkoff g /\ (g_active g' =? 0) = false.
+Proof.
+  intros g Hc D. rewrite (step_flag st id Hc). fold g.
+  inversion D as [| |g1 g1' e1 t1 Ha Hst Hl Dt E1 E2]; subst. rewrite Hst.
+  destruct ((g_unsorted g =? 0) && (g_lastclock g1' <? g_lastclock g)); [discriminate|].
+  intros H. inversion H; subst.
+  assert (Hf : g_clkoff g1' = g_clkoff g /\ (g_active g1' =? 0) = false).
+  { unfold sstep, m_stream_step in Hst. rewrite cst_nth in Hst.
+    destruct (g_active (w_unsorted 1 g) =? 0) eqn:Ea; [discriminate|].
+    destruct (negb (is_null (g_cur (w_unsorted 1 g)))); cbn [andb] in Hst.
+    + destruct (_ >? _); [discriminate|]. destruct (_ =? g_size _); [discriminate|]. destruct (_ <? 0); [discriminate|].
+      destruct (_ && _); [discriminate|]. inversion Hst; subst. destruct g; split; [reflexivity|exact Ea].
+    + destruct (_ <? 0); [discriminate|]. destruct (_ && _); [discriminate|]. inversion Hst; subst.
+      destruct g; split; [reflexivity|exact Ea]. }
+  destruct Hf as [Hf1 Hf2].
+  split; [reflexivity|]. split; [exact Dt|]. split; [exact Hl|]. split; [reflexivity|]. split; [exact Hf1|exact Hf2].
+Qed.
+
+(* ------------------------------------------------------------------ the simulation invariant *)
+
+Definition hids (h : list hnode) : list nat := map snd h.
+
+Record Core (sorted : bool) (offs : list Z) (st : pstate) (ps : pst) : Prop := {
+  co_heap : q_heap (pl st) = p_heap ps;
+  co_clk : clk_of (pl st) = p_clk ps;
+  co_sorted : (q_unsorted (pl st) =? 0) = sorted;
+  co_len : length (p_rem ps) = length (streams st);
+  co_nodup : NoDup (hids (p_heap ps));
+  co_in : forall k id, In (k, id) (p_heap ps) ->
+      (id < length (streams st))%nat /\
+      k = g_lastclock (nth id (streams st) g0) /\ (g_unsorted (nth id (streams st) g0) =? 0) = sorted /\
+      (g_active (nth id (streams st) g0) =? 0) = false /\
+      exists e t, nth id (p_rem ps) [] = e :: t /\ Delivers id (nth id (streams st) g0) t;
+  co_out : forall id, (id < length (streams st))%nat -> ~ In id (hids (p_heap ps)) ->
+      Delivers id (nth id (streams st) g0) (nth id (p_rem ps) []);
+  co_all : forall id, (id < length (streams st))%nat ->
+      own_cur id (nth id (streams st) g0) /\ nth id offs 0 = g_clkoff (nth id (streams st) g0)
+}.
+
+Lemma in_hids k id h : In (k, id) h -> In id (hids h).
+Proof. intros H. unfold hids. apply in_map_iff. exists (k, id). auto. Qed.
+
+(* a stream that is not in the heap is replaced by a record that delivers the same remaining events *)
+Lemma core_frame sorted offs st ps id g' q' :
+  Core sorted offs st ps -> (id < length (streams st))%nat -> ~ In id (hids (p_heap ps)) ->
+  own_cur id g' -> g_clkoff g' = g_clkoff (nth id (streams st) g0) -> Delivers id g' (nth id (p_rem ps) []) ->
+  q_heap q' = q_heap (pl st) -> clk_of q' = clk_of (pl st) -> q_unsorted q' = q_unsorted (pl st) ->
+  Core sorted offs (mk_pstate (upd (streams st) id g') q') ps.
+Proof.
+  intros C Hid Hni Hoc Hco D Hh Hc Hu. destruct C as [C1 C2 C3 C4 C5 C6 C7 C8].
+  constructor; cbn [streams pl]; try rewrite length_upd; auto; try congruence.
+  - intros k i Hin. destruct (C6 k i Hin) as (H1 & H2 & H3 & H4 & H5).
+    assert (i <> id) by (intros ->; apply Hni; eapply in_hids; eauto).
+    rewrite nth_upd_other by auto. auto.
+  - intros i Hi Hn. destruct (Nat.eq_dec i id) as [->|Hne].
+    + rewrite nth_upd_same by exact Hid. exact D.
+    + rewrite nth_upd_other by auto. apply C7; auto.
+  - intros i Hi. destruct (Nat.eq_dec i id) as [->|Hne].
+    + rewrite nth_upd_same by exact Hid. split; [exact Hoc|]. rewrite Hco. apply C8. exact Hid.
+    + rewrite nth_upd_other by auto. apply C8. exact Hi.
+Qed.
+
+(* a stream that is not in the heap loads its next event and enters the heap *)
+Lemma core_load sorted offs st ps id g' e t np :
+  Core sorted offs st ps -> (id < length (streams st))%nat -> ~ In id (hids (p_heap ps)) ->
+  nth id (p_rem ps) [] = e :: t ->
+  own_cur id g' -> g_clkoff g' = g_clkoff (nth id (streams st) g0) -> Delivers id g' t ->
+  (g_unsorted g' =? 0) = sorted -> (g_active g' =? 0) = false ->
+  Core sorted offs
+    (mk_pstate (upd (streams st) id g')
+       (w_nprocessed np (w_heap (insert stream_cmp (q_heap (pl st)) (g_lastclock g', id)) (pl st))))
+    (mkpst (insert stream_cmp (p_heap ps) (g_lastclock g', id)) (p_rem ps) (p_cur ps) (p_clk ps)).
+Proof.
+  intros C Hid Hni Hrem Hoc Hco D Hfl Hac. destruct C as [C1 C2 C3 C4 C5 C6 C7 C8].
+  pose proof (insert_perm stream_cmp (p_heap ps) (g_lastclock g', id)) as P.
+  constructor; cbn [streams pl p_heap p_rem p_cur p_clk].
+  - rewrite <- C1. destruct (pl st); reflexivity.
+  - rewrite <- C2. destruct (pl st); reflexivity.
+  - rewrite <- C3. destruct (pl st); reflexivity.
+  - rewrite length_upd. exact C4.
+  - eapply Permutation_NoDup; [apply Permutation_sym, Permutation_map; exact P|].
+    cbn [map snd]. constructor; assumption.
+  - intros k i Hin. apply (Permutation_in _ P) in Hin. destruct Hin as [E|Hin].
+    + inversion E; subst. rewrite length_upd. rewrite nth_upd_same by exact Hid. repeat split; auto. exists e, t. auto.
+    + destruct (C6 k i Hin) as (H1 & H2 & H3 & H4 & H5).
+      assert (i <> id) by (intros ->; apply Hni; eapply in_hids; eauto).
+      rewrite length_upd. rewrite nth_upd_other by auto. auto.
+  - intros i Hi Hn. rewrite length_upd in Hi.
+    assert (Hn' : ~ In i (id :: hids (p_heap ps))).
+    { intros X. apply Hn. eapply Permutation_in; [apply Permutation_sym, Permutation_map; exact P|]. exact X. }
+    cbn [In] in Hn'. rewrite nth_upd_other by (intros ->; tauto). apply C7; tauto.
+  - intros i Hi. rewrite length_upd in Hi. destruct (Nat.eq_dec i id) as [->|Hne].
+    + rewrite nth_upd_same by exact Hid. split; [exact Hoc|]. rewrite Hco. apply C8. exact Hid.
+    + rewrite nth_upd_other by auto. apply C8. exact Hi.
+Qed.
+
+Lemma step_end_facts st id g' :
+  m_stream_step st id = Some (false, g') ->
+  g_active g' = 0 /\ g_clkoff g' = g_clkoff (nth id (streams st) g0).
+Proof.
+  unfold m_stream_step. set (g := nth id (streams st) g0).
+  destruct (g_active g =? 0); [discriminate|].
+  destruct (negb (is_null (g_cur g))); cbn [andb].
+  - destruct (_ >? g_size g); [discriminate|]. destruct (_ =? g_size g).
+    + intros H. inversion H; subst. destruct g; split; reflexivity.
+    + destruct (_ <? 0); [discriminate|]. destruct (_ && _); discriminate.
+  - destruct (_ <? 0); [discriminate|]. destruct (_ && _); discriminate.
+Qed.
+
+(* step_stream on a stream that is not in the heap, against what restep / pinit do with its remaining events *)
+Lemma sim_step_stream sorted offs st ps id :
+  Core sorted offs st ps -> (id < length (streams st))%nat -> ~ In id (hids (p_heap ps)) ->
+  (g_unsorted (nth id (streams st) g0) =? 0) = sorted ->
+  match nth id (p_rem ps) [] with
+  | [] => exists st', m_step_stream st id = Stop st' /\ Core sorted offs st' ps /\ pl st' = pl st /\
+                     length (streams st') = length (streams st) /\
+                     (forall j, j <> id -> nth j (streams st') g0 = nth j (streams st) g0)
+  | e :: _ =>
+      let k := corr offs id e in
+      if sorted && (k <? g_lastclock (nth id (streams st) g0)) then m_step_stream st id = Fail E_FAIL
+      else exists st', m_step_stream st id = Done tt st' /\
+             Core sorted offs st' (mkpst (insert stream_cmp (p_heap ps) (k, id)) (p_rem ps) (p_cur ps) (p_clk ps)) /\
+             q_stream (pl st') = q_stream (pl st) /\ length (streams st') = length (streams st) /\
+             g_lastclock (nth id (streams st') g0) = k /\ (g_unsorted (nth id (streams st') g0) =? 0) = sorted /\
+             (forall j, j <> id -> nth j (streams st') g0 = nth j (streams st) g0)
+  end.
+Proof.
+  intros C Hid Hni Hfl. set (g := nth id (streams st) g0) in *.
+  pose proof (co_out _ _ _ _ C id Hid Hni) as D. fold g in D.
+  destruct (co_all _ _ _ _ C id Hid) as [Hoc Hoff]. fold g in Hoc, Hoff.
+  unfold m_step_stream. fold g.
+  destruct (nth id (p_rem ps) []) as [|e t] eqn:Erem.
+  - inversion D as [g1 Ha E1 E2|g1 g' Ha Hst E1 E2|]; subst.
+    + rewrite Ha. exists st. split; [reflexivity|]. split; [exact C|]. split; [reflexivity|]. split; [reflexivity|]. auto.
+    + rewrite Ha. rewrite (step_flag st id Hoc). fold g. rewrite Hst.
+      set (g'' := w_unsorted (g_unsorted g) g').
+      assert (Hs : m_stream_step st id = Some (false, g'')) by (rewrite (step_flag st id Hoc); fold g; rewrite Hst; reflexivity).
+      destruct (step_end_facts st id g'' Hs) as [Hia Hco]. fold g in Hco.
+      exists (put st id g''). split; [reflexivity|]. split; [|split; [reflexivity|split; [apply put_length|]]].
+      2:{ intros j Hj. unfold put. cbn [streams]. apply nth_upd_other. exact Hj. }
+      unfold put. apply core_frame; auto.
+      * eapply step_own; [|exact Hs]. exact Hoc.
+      * rewrite Erem. apply D_inactive. rewrite Hia. reflexivity.
+  - cbv zeta. pose proof D as D0.
+    inversion D as [| |g1 g' e1 t1 Ha Hst Hl Dt E1 E2]; subst. rewrite Ha.
+    pose proof (step_flag st id Hoc) as SF. fold g in SF. rewrite Hst in SF.
+    unfold corr. rewrite Hoff, <- Hl.
+    destruct ((g_unsorted g =? 0) && (g_lastclock g' <? g_lastclock g)) eqn:X.
+    + rewrite SF. reflexivity.
+    + set (g'' := w_unsorted (g_unsorted g) g') in *.
+      destruct (delivers_step st id e t true g'' Hoc D0 SF) as (_ & Dt' & Hl' & Hu' & Hc' & Ha').
+      fold g in Hl', Hu', Hc'.
+      rewrite SF. eexists. split; [reflexivity|].
+      assert (Elc : g_lastclock g'' = g_lastclock g') by reflexivity.
+      rewrite <- Elc.
+      split; [|cbn [streams pl]; rewrite length_upd, nth_upd_same by exact Hid; repeat split; try reflexivity;
+                try (intros j Hj; apply nth_upd_other; exact Hj)].
+      apply core_load with (e := e) (t := t); auto;
+          try (eapply step_own; [|exact SF]; exact Hoc); try (rewrite Hu'; reflexivity).
+Qed.
+
+Record Sim (sorted : bool) (offs : list Z) (st : pstate) (ps : pst) : Prop := {
+  si_core : Core sorted offs st ps;
+  si_cur : p_cur ps = option_map (fun id => (id, g_lastclock (nth id (streams st) g0))) (q_stream (pl st));
+  si_curin : forall id, q_stream (pl st) = Some id ->
+      (id < length (streams st))%nat /\ ~ In id (hids (p_heap ps)) /\ (g_unsorted (nth id (streams st) g0) =? 0) = sorted
+}.
+
+(* what the player hands to emu_ev for a delivered event of the model *)
+Definition obs_of (st1 : pstate) (o : oev) : option (ptr_ev * Z * Z) :=
+  Some (g_cur (nth (o_id o) (streams st1) g0), o_sclock o, wdiff (o_sclock o) (o_sclock o - o_dclock o)).
+
+Lemma pop_sim sorted offs st1 ps1 :
+  Core sorted offs st1 ps1 ->
+  match pop_part sorted ps1, m_pop_emit st1 with
+  | SDone, Stop s => s = st1
+  | SErr v, Fail e => v = VBackPlayer /\ e = E_FAIL
+  | SEmit o ps2, Done _ st2 => Sim sorted offs st2 ps2 /\ q_ev (pl st2) = obs_of st1 o /\ streams st2 = streams st1
+  | _, _ => False
+  end.
+Proof.
+  intros C. unfold pop_part, m_pop_emit. rewrite (co_heap _ _ _ _ C).
+  destruct (pop_max stream_cmp (p_heap ps1)) as [[[k id] h']|] eqn:P; [|reflexivity].
+  pose proof (pop_max_perm stream_cmp _ _ _ P) as PP.
+  assert (Hin : In (k, id) (p_heap ps1)) by (eapply Permutation_in; [exact PP|left; reflexivity]).
+  destruct (co_in _ _ _ _ C k id Hin) as (Hid & Hk & Hfl & Hac & e & t & Hrem & Dt).
+  rewrite <- Hk.
+  pose proof (update_clocks_refines (w_heap h' (pl st1)) k) as U. cbv zeta in U.
+  assert (Ec : clk_of (w_heap h' (pl st1)) = p_clk ps1) by (rewrite <- (co_clk _ _ _ _ C); destruct (pl st1); reflexivity).
+  assert (Eu : (q_unsorted (w_heap h' (pl st1)) =? 0) = sorted) by (rewrite <- (co_sorted _ _ _ _ C); destruct (pl st1); reflexivity).
+  rewrite Ec, Eu in U.
+  assert (ND : NoDup (id :: hids h')).
+  { eapply Permutation_NoDup; [apply Permutation_sym, (Permutation_map snd PP)|]. exact (co_nodup _ _ _ _ C). }
+  apply NoDup_cons_iff in ND as [Hnid NDh].
+  destruct (m_update_clocks (w_heap h' (pl st1)) k) as [q|].
+  2:{ rewrite U. auto. }
+  destruct U as (U1 & U2 & U3 & U4 & U5). rewrite U1. rewrite Hrem.
+  set (first := match p_clk ps1 with Some (f, _) => f | None => k end) in *.
+  assert (Eheap : q_heap q = h') by (rewrite U4; destruct (pl st1); reflexivity).
+  assert (Hlr : (id < length (p_rem ps1))%nat) by (rewrite (co_len _ _ _ _ C); exact Hid).
+  split; [|split; [|reflexivity]].
+  - constructor; cbn [streams pl p_heap p_rem p_cur p_clk].
+    + constructor; cbn [streams pl p_heap p_rem p_cur p_clk].
+      * destruct q; exact Eheap.
+      * rewrite <- U2. destruct q; reflexivity.
+      * rewrite <- (co_sorted _ _ _ _ C). replace (q_unsorted (w_ev _ (w_stream (Some id) q))) with (q_unsorted q) by (destruct q; reflexivity).
+        rewrite U5. destruct (pl st1); reflexivity.
+      * rewrite length_upd. exact (co_len _ _ _ _ C).
+      * exact NDh.
+      * intros k' i Hi'.
+        assert (Hi : In (k', i) (p_heap ps1)) by (eapply Permutation_in; [exact PP|right; exact Hi']).
+        destruct (co_in _ _ _ _ C k' i Hi) as (A1 & A2 & A3 & A4 & A5).
+        assert (i <> id) by (intros ->; apply Hnid; eapply in_hids; eauto).
+        rewrite nth_upd_other by auto. auto.
+      * intros i Hi Hn. destruct (Nat.eq_dec i id) as [->|Hne].
+        -- rewrite nth_upd_same by exact Hlr. exact Dt.
+        -- rewrite nth_upd_other by auto. apply (co_out _ _ _ _ C); auto.
+           intros X. apply (Permutation_in _ (Permutation_sym (Permutation_map snd PP))) in X.
+           cbn [map snd] in X. destruct X as [X|X]; [congruence|exact (Hn X)].
+      * exact (co_all _ _ _ _ C).
+    + replace (q_stream (w_ev _ (w_stream (Some id) q))) with (Some id) by (destruct q; reflexivity).
+      cbn [option_map]. rewrite <- Hk. reflexivity.
+    + intros i Hi. replace (q_stream (w_ev _ (w_stream (Some id) q))) with (Some id) in Hi by (destruct q; reflexivity).
+      inversion Hi; subst. auto.
+  - unfold obs_of. cbn [o_id o_sclock o_dclock].
+    replace (q_ev (w_ev _ (w_stream (Some id) q))) with (Some (g_cur (nth id (streams st1) g0), q_lastclock q, q_deltaclock q)) by (destruct q; reflexivity).
+    unfold clk_of in U2. destruct (q_first_event q =? 0); [|discriminate]. injection U2 as Ef El.
+    rewrite U3, El. replace (k - (k - first)) with first by lia. reflexivity.
+Qed.
+
+(* one player_step: the invariant is kept, verdicts agree, the emitted event carries the model's clocks *)
+Theorem player_step_sim sorted offs st ps :
+  Sim sorted offs st ps ->
+  match pstep sorted offs ps, m_player_step st with
+  | SDone, Stop _ => True
+  | SErr _, Fail e => e = E_FAIL
+  | SEmit o ps2, Done _ st2 => Sim sorted offs st2 ps2 /\ q_ev (pl st2) = obs_of st2 o /\
+                               length (streams st2) = length (streams st)
+  | _, _ => False
+  end.
+Proof.
+  intros [C Hcur Hin]. rewrite pstep_split. unfold m_player_step, restep.
+  assert (Fin : forall st1 ps1, Core sorted offs st1 ps1 -> length (streams st1) = length (streams st) ->
+    match pop_part sorted ps1, m_pop_emit st1 with
+    | SDone, Stop _ => True
+    | SErr _, Fail e => e = E_FAIL
+    | SEmit o ps2, Done _ st2 => Sim sorted offs st2 ps2 /\ q_ev (pl st2) = obs_of st2 o /\
+                                 length (streams st2) = length (streams st)
+    | _, _ => False
+    end).
+  { intros st1 ps1 C1 L1. pose proof (pop_sim sorted offs st1 ps1 C1) as PS.
+    destruct (pop_part sorted ps1) as [|v|o ps2]; destruct (m_pop_emit st1) as [[] st2|s|e]; try contradiction; auto.
+    - destruct PS; auto.
+    - destruct PS as (S2 & E2 & E3). split; [exact S2|]. split; [|rewrite E3; exact L1].
+      unfold obs_of in *. rewrite E3. exact E2. }
+  destruct (q_stream (pl st)) as [id|] eqn:Eq; cbn [option_map] in Hcur; rewrite Hcur.
+  - destruct (Hin id eq_refl) as (Hid & Hni & Hfl).
+    pose proof (sim_step_stream sorted offs st ps id C Hid Hni Hfl) as SS.
+    destruct (nth id (p_rem ps) []) as [|e t].
+    + destruct SS as (st' & E & C' & Hp & L & _). rewrite E. apply Fin; assumption.
+    + cbv zeta in SS. destruct (sorted && (corr offs id e <? g_lastclock (nth id (streams st) g0))).
+      * rewrite SS. reflexivity.
+      * destruct SS as (st' & E & C' & Hq & L & _). rewrite E. rewrite Hcur in C'. apply Fin; [exact C'|exact L].
+  - apply Fin; auto.
+Qed.
+
+(* ------------------------------------------------------------------ repeated player_step = ploop *)
+
+Definition E_LOOPFUEL := 97%nat.
+(* the emulator's main loop: while (player_step(player) == 0) consume player_ev: the arguments of emu_ev, in order *)
+Fixpoint m_loop (fuel : nat) (st : pstate) : list (option (ptr_ev * Z * Z)) * res unit :=
+  match fuel with
+  | O => ([], Fail E_LOOPFUEL)
+  | S f => match m_player_step st with
+           | Done _ st' => let (l, r) := m_loop f st' in (q_ev (pl st') :: l, r)
+           | r => ([], r)
+           end
+  end.
+
+Definition clocks_of (x : option (ptr_ev * Z * Z)) : option (Z * Z) := option_map (fun y => (snd (fst y), snd y)) x.
+Definition model_clocks (o : oev) : option (Z * Z) := Some (o_sclock o, wdiff (o_sclock o) (o_sclock o - o_dclock o)).
+
+Definition verdict_rel (v : PlayerDefs.verdict) (r : res unit) : Prop :=
+  match v, r with
+  | PlayerDefs.VOk, Stop _ => True
+  | PlayerDefs.VFuel, Fail e => e = E_LOOPFUEL
+  | PlayerDefs.VOk, _ | PlayerDefs.VFuel, _ => False
+  | _, Fail e => e = E_FAIL
+  | _, _ => False
+  end.
+
+Lemma pstep_err sorted offs ps v : pstep sorted offs ps = SErr v -> v <> PlayerDefs.VOk /\ v <> PlayerDefs.VFuel.
+Proof.
+  unfold pstep, restep.
+  destruct (p_cur ps) as [[id sl]|].
+  - destruct (nth id (p_rem ps) []) as [|e r].
+    + destruct (pop_max stream_cmp (p_heap ps)) as [[[k i] h']|]; [|discriminate].
+      destruct (sorted && _); [intros H; inversion H; split; discriminate|].
+      destruct (nth i (p_rem ps) []); intros H; inversion H; split; discriminate.
+    + destruct (sorted && _); [intros H; inversion H; split; discriminate|]. cbn [p_heap p_clk p_rem].
+      destruct (pop_max stream_cmp _) as [[[k i] h']|]; [|discriminate].
+      destruct (sorted && _); [intros H; inversion H; split; discriminate|].
+      destruct (nth i (p_rem ps) []); intros H; inversion H; split; discriminate.
+  - destruct (pop_max stream_cmp (p_heap ps)) as [[[k i] h']|]; [|discriminate].
+    destruct (sorted && _); [intros H; inversion H; split; discriminate|].
+    destruct (nth i (p_rem ps) []); intros H; inversion H; split; discriminate.
+Qed.
+
+Theorem loop_sim sorted offs : forall fuel st ps, Sim sorted offs st ps ->
+  map clocks_of (fst (m_loop fuel st)) = map model_clocks (fst (ploop sorted offs fuel ps)) /\
+  verdict_rel (snd (ploop sorted offs fuel ps)) (snd (m_loop fuel st)).
+Proof.
+  induction fuel as [|f IH]; intros st ps S; cbn [m_loop ploop].
+  - split; reflexivity.
+  - pose proof (player_step_sim sorted offs st ps S) as PS.
+    destruct (pstep sorted offs ps) as [|v|o ps2] eqn:EP; destruct (m_player_step st) as [[] st2|s|e]; try contradiction.
+    + split; reflexivity.
+    + split; [reflexivity|]. subst e. destruct (pstep_err _ _ _ _ EP) as [N1 N2].
+      destruct v; cbn; auto; congruence.
+    + destruct PS as (S2 & E2 & _). destruct (IH st2 ps2 S2) as [I1 I2].
+      destruct (m_loop f st2) as [l r]. destruct (ploop sorted offs f ps2) as [l' v']. cbn [fst snd map] in *.
+      split; [|exact I2]. f_equal; [|exact I1]. rewrite E2. reflexivity.
+Qed.
+
+(* ------------------------------------------------------------------ player_init's loop = pinit *)
+
+Lemma skipn_nth_cons1 {A} (l : list A) d : forall j, (j < length l)%nat -> skipn j l = nth j l d :: skipn (S j) l.
+Proof.
+  induction l as [|a t IH]; intros [|j] H; cbn [length] in H; try lia; cbn [skipn nth]; [reflexivity|].
+  apply IH. lia.
+Qed.
+
+Lemma wu_wu u v g : w_unsorted u (w_unsorted v g) = w_unsorted u g.
+Proof. destruct g; reflexivity. Qed.
+
+Lemma delivers_flag id g rem : Delivers id g rem -> forall u, Delivers id (w_unsorted u g) rem.
+Proof.
+  induction 1 as [g Ha|g g' Ha Hs|g g' e t Ha Hs Hl Dt IH]; intros u.
+  - apply D_inactive. exact Ha.
+  - apply D_end with g'; [exact Ha|]. rewrite wu_wu. exact Hs.
+  - apply D_ev with g'; [exact Ha| rewrite wu_wu; exact Hs | exact Hl |].
+    specialize (IH u). rewrite wu_wu in IH. exact IH.
+Qed.
+
+Lemma init_fold unsorted offs rem : forall m i st h,
+  let sorted := unsorted =? 0 in
+  (i + m = length (streams st))%nat -> length rem = length (streams st) ->
+  Core sorted offs st (mkpst h rem None None) -> q_stream (pl st) = None ->
+  (forall j, (i <= j < length (streams st))%nat ->
+     ~ In j (hids h) /\ g_lastclock (nth j (streams st) g0) = 0 /\ g_unsorted (nth j (streams st) g0) = 0 /\
+     g_cur (nth j (streams st) g0) = None) ->
+  match pinit sorted offs i (skipn i rem) h, m_init_all unsorted (seq i m) st with
+  | inl _, Fail e => e = E_FAIL
+  | inr h', Done _ st' => Core sorted offs st' (mkpst h' rem None None) /\ q_stream (pl st') = None /\
+                          length (streams st') = length (streams st)
+  | _, _ => False
+  end.
+Proof.
+  induction m as [|m IH]; intros i st h sorted Him Hlr C Hq Hrest.
+  - cbn [seq m_init_all]. rewrite skipn_all2 by lia. cbn [pinit]. auto.
+  - cbn [seq m_init_all].
+    assert (Hi : (i < length (streams st))%nat) by lia.
+    rewrite (skipn_nth_cons1 rem [] i) by lia.
+    destruct (Hrest i ltac:(lia)) as (Hni & Hlc & Hun & Hcu).
+    unfold m_init_stream.
+    set (g := nth i (streams st) g0) in *.
+    set (st1 := if negb (unsorted =? 0) then put st i (w_unsorted 1 g) else st).
+    assert (C1 : Core sorted offs st1 (mkpst h rem None None) /\ length (streams st1) = length (streams st) /\
+                 pl st1 = pl st /\ (g_unsorted (nth i (streams st1) g0) =? 0) = sorted /\
+                 g_lastclock (nth i (streams st1) g0) = 0 /\
+                 (forall j, j <> i -> nth j (streams st1) g0 = nth j (streams st) g0)).
+    { unfold st1, sorted. destruct (unsorted =? 0) eqn:E; cbn [negb].
+      - split; [exact C|]. split; [reflexivity|]. split; [reflexivity|].
+        split; [change (nth i (streams st) g0) with g; rewrite Hun; reflexivity|]. split; [exact Hlc|auto].
+      - unfold put. split.
+        { apply core_frame; auto.
+          - left. exact Hcu.
+          - apply delivers_flag. apply (co_out _ _ _ _ C i Hi Hni). }
+        split; [cbn [streams]; apply length_upd|]. split; [reflexivity|].
+        split; [cbn [streams]; rewrite nth_upd_same by exact Hi; reflexivity|].
+        split; [cbn [streams]; rewrite nth_upd_same by exact Hi; exact Hlc|].
+        intros j Hj. cbn [streams]. apply nth_upd_other. exact Hj. }
+    destruct C1 as (C1 & L1 & P1 & F1 & LC1 & Fr1).
+    pose proof (sim_step_stream sorted offs st1 (mkpst h rem None None) i C1 ltac:(lia) Hni F1) as SS.
+    cbn [p_rem p_heap p_cur p_clk] in SS. rewrite LC1 in SS.
+    destruct (nth i rem []) as [|e t]; cbn [pinit].
+    + destruct SS as (st' & E & C' & Hp & L & Fr). rewrite E.
+      assert (R := IH (S i) st' h ltac:(lia) ltac:(lia) C' ltac:(congruence)).
+      cbv zeta in R. fold sorted in R.
+      assert (Hr' : forall j, (S i <= j < length (streams st'))%nat ->
+                ~ In j (hids h) /\ g_lastclock (nth j (streams st') g0) = 0 /\ g_unsorted (nth j (streams st') g0) = 0 /\
+                g_cur (nth j (streams st') g0) = None).
+      { intros j Hj. rewrite L, L1 in Hj. rewrite (Fr j) by lia. rewrite (Fr1 j) by lia. apply Hrest. lia. }
+      specialize (R Hr').
+      destruct (pinit sorted offs (S i) (skipn (S i) rem) h); destruct (m_init_all unsorted (seq (S i) m) st') as [[] s|s|e0];
+        try exact R. destruct R as (R1 & R2 & R3). split; [exact R1|]. split; [exact R2|]. lia.
+    + cbv zeta in SS. fold sorted. destruct (sorted && (corr offs i e <? 0)).
+      * rewrite SS. reflexivity.
+      * destruct SS as (st' & E & C' & Hq' & L & _ & _ & Fr). rewrite E.
+        assert (R := IH (S i) st' (insert stream_cmp h (corr offs i e, i)) ltac:(lia) ltac:(lia) C' ltac:(congruence)).
+        cbv zeta in R. fold sorted in R.
+        assert (Hr' : forall j, (S i <= j < length (streams st'))%nat ->
+                  ~ In j (hids (insert stream_cmp h (corr offs i e, i))) /\ g_lastclock (nth j (streams st') g0) = 0 /\
+                  g_unsorted (nth j (streams st') g0) = 0 /\ g_cur (nth j (streams st') g0) = None).
+        { intros j Hj. rewrite L, L1 in Hj. rewrite (Fr j) by lia. rewrite (Fr1 j) by lia.
+          destruct (Hrest j ltac:(lia)) as (A1 & A2 & A3 & A4). repeat split; auto.
+          intros X. apply (Permutation_in _ (Permutation_map snd (insert_perm stream_cmp h (corr offs i e, i)))) in X.
+          cbn [map snd] in X. destruct X as [X|X]; [lia|exact (A1 X)]. }
+        specialize (R Hr').
+        destruct (pinit sorted offs (S i) (skipn (S i) rem) (insert stream_cmp h (corr offs i e, i)));
+          destruct (m_init_all unsorted (seq (S i) m) st') as [[] s|s|e0]; try exact R.
+        destruct R as (R1 & R2 & R3). split; [exact R1|]. split; [exact R2|]. lia.
+Qed.
+
+(* ------------------------------------------------------------------ the whole run *)
+
+(* the loaded trace against the model's streams: nothing stepped yet, offsets set, each stream delivers its events *)
+Record InitOk (offs : list Z) (st : pstate) (rem : list (list PlayerDefs.ev)) : Prop := {
+  io_len : length rem = length (streams st);
+  io_streams : forall id, (id < length (streams st))%nat ->
+      let g := nth id (streams st) g0 in
+      g_cur g = None /\ g_lastclock g = 0 /\ g_unsorted g = 0 /\ nth id offs 0 = g_clkoff g /\
+      Delivers id g (nth id rem [])
+}.
+
+Definition player0 (unsorted : Z) (st : pstate) : pstate :=
+  mk_pstate (streams st) (mk_gplayer [] 0 0 0 0 1 unsorted None None).
+
+Theorem init_sim unsorted offs st rem :
+  InitOk offs st rem ->
+  let sorted := unsorted =? 0 in
+  match pinit sorted offs 0 rem [], m_init_all unsorted (seq 0 (length (streams st))) (player0 unsorted st) with
+  | inl _, Fail e => e = E_FAIL
+  | inr h, Done _ st1 => Sim sorted offs st1 (mkpst h rem None None) /\ length (streams st1) = length (streams st)
+  | _, _ => False
+  end.
+Proof.
+  intros [Hl Hs] sorted.
+  assert (C0 : Core sorted offs (player0 unsorted st) (mkpst [] rem None None)).
+  { constructor; cbn [player0 streams pl p_heap p_rem p_cur p_clk q_heap]; auto.
+    - constructor.
+    - intros k id [].
+    - intros id Hid _. apply Hs. exact Hid.
+    - intros id Hid. destruct (Hs id Hid) as (A1 & A2 & A3 & A4 & A5). split; [left; exact A1|exact A4]. }
+  pose proof (init_fold unsorted offs rem (length (streams st)) 0 (player0 unsorted st) []) as F.
+  cbv zeta in F. fold sorted in F. cbn [player0 streams] in F.
+  specialize (F eq_refl Hl C0 eq_refl).
+  assert (Hr : forall j, (0 <= j < length (streams st))%nat ->
+            ~ In j (hids []) /\ g_lastclock (nth j (streams st) g0) = 0 /\ g_unsorted (nth j (streams st) g0) = 0 /\
+            g_cur (nth j (streams st) g0) = None).
+  { intros j Hj. destruct (Hs j ltac:(lia)) as (A1 & A2 & A3 & A4 & A5). repeat split; auto. }
+  specialize (F Hr). cbn [skipn] in F.
+  destruct (pinit sorted offs 0 rem []) as [v|h]; destruct (m_init_all unsorted _ (player0 unsorted st)) as [[] st1|s|e]; try exact F.
+  destruct F as (C1 & Q1 & L1). split; [|exact L1].
+  constructor; [exact C1| rewrite Q1; reflexivity | intros id Hq; rewrite Q1 in Hq; discriminate].
+Qed.
+
+(* player_init (reading of C03_player_init_from_source) then the main loop *)
+Definition m_run (unsorted : Z) (fuel : nat) (st : pstate) : list (option (ptr_ev * Z * Z)) * res unit :=
+  match m_init_all unsorted (seq 0 (length (streams st))) (player0 unsorted st) with
+  | Done _ s =>
+      if (unsorted =? 0) && negb (gate_of (active_clocks s (seq 0 (length (streams s))))) then ([], Fail E_FAIL)
+      else m_loop fuel s
+  | Stop s => ([], Stop s)
+  | Fail e => ([], Fail e)
+  end.
+
+(* PlayerDefs.run for the generated code.  Partial: the gate of the generated check_clock_gate (proved to be gate_of
+   of the active streams' loaded clocks) is linked to gate_ok of the model's first clocks by hypothesis Hgate *)
+Theorem run_sim unsorted st ss :
+  let sorted := unsorted =? 0 in
+  let offs := map s_off ss in
+  let rem := map s_evs ss in
+  InitOk offs st rem ->
+  (forall h s, pinit sorted offs 0 rem [] = inr h ->
+     m_init_all unsorted (seq 0 (length (streams st))) (player0 unsorted st) = Done tt s ->
+     gate_of (active_clocks s (seq 0 (length (streams s)))) = gate_ok ss) ->
+  map clocks_of (fst (m_run unsorted (S (total_events ss)) st)) = map model_clocks (fst (PlayerDefs.run sorted ss)) /\
+  verdict_rel (snd (PlayerDefs.run sorted ss)) (snd (m_run unsorted (S (total_events ss)) st)).
+Proof.
+  intros sorted offs rem I Hgate. unfold PlayerDefs.run, m_run. fold offs rem.
+  pose proof (init_sim unsorted offs st rem I) as IS. cbv zeta in IS. fold sorted in IS.
+  destruct (pinit sorted offs 0 rem []) as [v|h] eqn:EP;
+    destruct (m_init_all unsorted (seq 0 (length (streams st))) (player0 unsorted st)) as [[] s|s|e] eqn:EM; try contradiction.
+  - subst e. split; [reflexivity|]. cbn [snd].
+    (* pinit only fails with VBackStream *)
+    assert (exists i, v = VBackStream i) as [i ->].
+    { clear -EP. revert EP. generalize (@nil hnode). generalize 0%nat.
+      induction rem as [|r t IH]; intros i h EP; cbn [pinit] in EP; [discriminate|].
+      destruct r as [|e r'].
+      - apply (IH _ _ EP).
+      - destruct (sorted && _); [inversion EP; eauto|]. apply (IH _ _ EP). }
+    reflexivity.
+  - destruct IS as [S1 L1]. rewrite (Hgate h s eq_refl eq_refl). fold sorted.
+    destruct (sorted && negb (gate_ok ss)); [split; reflexivity|].
+    apply loop_sim. exact S1.
+Qed.
+
+(* ------------------------------------------------------------------ the gate after player_init's loop *)
+
+(* the clock check_clock_gate re-reads at cur_ev, for a stream whose cur_ev is &buf[offset] *)
+Definition evclk (g : gstream) : Z :=
+  cast_int64 (get_header_clock (mk_evp (g_buf g) (g_offset g) (g_junk g))) + g_clkoff g.
+
+(* what the first step of stream i leaves (pure unfolding of the readings) *)
+Definition stepped (i : nat) (s : pstate) : Prop :=
+  let g := nth i (streams s) g0 in
+  ((g_active g =? 0) = true /\ ~ In i (hids (q_heap (pl s)))) \/
+  ((g_active g =? 0) = false /\ g_cur g = Some (i, g_offset g) /\ evclk g = g_lastclock g /\
+   In (g_lastclock g, i) (q_heap (pl s))).
+
+Lemma init_stream_facts unsorted st i s :
+  (i < length (streams st))%nat -> ~ In i (hids (q_heap (pl st))) ->
+  g_cur (nth i (streams st) g0) = None ->
+  m_init_stream unsorted st i = Done tt s ->
+  stepped i s /\ (forall j, j <> i -> nth j (streams s) g0 = nth j (streams st) g0) /\
+  length (streams s) = length (streams st) /\
+  (forall x, In x (q_heap (pl st)) -> In x (q_heap (pl s))) /\
+  (forall j, j <> i -> In j (hids (q_heap (pl s))) -> In j (hids (q_heap (pl st)))).
+Proof.
+  intros Hi Hni Hcu. unfold m_init_stream.
+  set (st1 := if negb (unsorted =? 0) then put st i (w_unsorted 1 (nth i (streams st) g0)) else st).
+  assert (H1 : length (streams st1) = length (streams st) /\ pl st1 = pl st /\
+               g_cur (nth i (streams st1) g0) = None /\
+               (forall j, j <> i -> nth j (streams st1) g0 = nth j (streams st) g0)).
+  { unfold st1. destruct (negb (unsorted =? 0)).
+    - unfold put. cbn [streams pl]. rewrite length_upd, nth_upd_same by exact Hi. repeat split; auto.
+      intros j Hj. apply nth_upd_other. exact Hj.
+    - repeat split; auto. }
+  destruct H1 as (L1 & P1 & C1 & F1).
+  unfold m_step_stream, m_stream_step. set (g := nth i (streams st1) g0) in *.
+  destruct (g_active g =? 0) eqn:Ea.
+  - intros H. inversion H; subst s. repeat split; auto; try congruence.
+    left. fold g. split; [exact Ea|]. rewrite P1. exact Hni.
+  - rewrite C1. cbn [is_null negb andb].
+    destruct (LoaderStep_gen.next_ev_size _ _ <? 0); [discriminate|].
+    destruct (_ && _); [discriminate|].
+    intros H. inversion H; subst s. clear H. cbn [streams pl].
+    rewrite length_upd. split; [|split; [|split; [exact L1|split]]].
+    + right. unfold stepped. cbn [streams pl]. rewrite nth_upd_same by lia.
+      cbn [w_lastclock w_deltaclock w_cur w_offset g_active g_cur g_offset g_lastclock g_buf g_junk g_clkoff evclk].
+      split; [exact Ea|]. split; [reflexivity|]. split; [reflexivity|].
+      destruct (pl st1) as [h1 f1 l1 d1 n1 fe1 u1 s1 e1]; cbn [w_nprocessed w_heap q_heap].
+      eapply Permutation_in; [apply Permutation_sym, insert_perm|]. left. reflexivity.
+    + intros j Hj. rewrite nth_upd_other by exact Hj. apply F1. exact Hj.
+    + intros x Hx. rewrite <- P1 in Hx. destruct (pl st1) as [h1 f1 l1 d1 n1 fe1 u1 s1 e1]; cbn [w_nprocessed w_heap q_heap] in *.
+      eapply Permutation_in; [apply Permutation_sym, insert_perm|]. right. exact Hx.
+    + intros j Hj Hin. rewrite <- P1. destruct (pl st1) as [h1 f1 l1 d1 n1 fe1 u1 s1 e1]; cbn [w_nprocessed w_heap q_heap] in *.
+      unfold hids in *. apply (Permutation_in _ (Permutation_map snd (insert_perm stream_cmp _ _))) in Hin.
+      cbn [map snd] in Hin. destruct Hin as [E|Hin]; [congruence|exact Hin].
+Qed.
+
+Lemma init_all_facts unsorted : forall m i st s,
+  (i + m = length (streams st))%nat ->
+  (forall j, (i <= j < length (streams st))%nat -> ~ In j (hids (q_heap (pl st))) /\ g_cur (nth j (streams st) g0) = None) ->
+  m_init_all unsorted (seq i m) st = Done tt s ->
+  (forall j, (i <= j < length (streams st))%nat -> stepped j s) /\
+  (forall j, (j < i)%nat -> nth j (streams s) g0 = nth j (streams st) g0) /\
+  length (streams s) = length (streams st) /\
+  (forall x, In x (q_heap (pl st)) -> In x (q_heap (pl s))) /\
+  (forall j, (j < i)%nat -> In j (hids (q_heap (pl s))) -> In j (hids (q_heap (pl st)))).
+Proof.
+  induction m as [|m IH]; intros i st s Him Hrest; cbn [seq m_init_all].
+  - intros H. inversion H; subst. repeat split; auto. intros j Hj. lia.
+  - destruct (Hrest i ltac:(lia)) as [Hni Hcu].
+    destruct (m_init_stream unsorted st i) as [[] s1|s1|e] eqn:E1; try discriminate.
+    2:{ (* m_init_stream never stops *) unfold m_init_stream in E1. destruct (m_step_stream _ i); discriminate. }
+    destruct (init_stream_facts unsorted st i s1 ltac:(lia) Hni Hcu E1) as (S1 & F1 & L1 & M1 & N1).
+    intros E2.
+    destruct (IH (S i) s1 s ltac:(lia)) as (A1 & A2 & A3 & A4 & A5); [|exact E2|].
+    { intros j Hj. rewrite L1 in Hj. rewrite (F1 j) by lia. destruct (Hrest j ltac:(lia)) as [B1 B2].
+      split; [|exact B2]. intros X. apply B1. apply N1; [lia|exact X]. }
+    split; [|split; [|split; [lia|split]]].
+    + intros j Hj. destruct (Nat.eq_dec j i) as [->|Hne].
+      * (* stream i: stepped in s1, untouched afterwards *)
+        unfold stepped in *. rewrite (A2 i) by lia.
+        destruct S1 as [[B1 B2]|(B1 & B2 & B3 & B4)].
+        -- left. split; [exact B1|]. intros X. apply B2. apply A5; [lia|exact X].
+        -- right. repeat split; auto.
+      * apply A1. rewrite L1. lia.
+    + intros j Hj. rewrite (A2 j) by lia. apply F1. lia.
+    + intros x Hx. apply A4, M1, Hx.
+    + intros j Hj X. apply N1; [lia|]. apply A5; [lia|exact X].
+Qed.
+
+Lemma pinit_in sorted offs : forall l i0 h h',
+  pinit sorted offs i0 l h = inr h' ->
+  (forall x, In x h -> In x h') /\
+  (forall j e r, nth_error l j = Some (e :: r) -> In (corr offs (i0 + j) e, (i0 + j)%nat) h').
+Proof.
+  induction l as [|r t IH]; intros i0 h h' E; cbn [pinit] in E.
+  - inversion E; subst. split; [auto|]. intros j e r H. destruct j; discriminate.
+  - destruct r as [|e r'].
+    + destruct (IH _ _ _ E) as [I1 I2]. split; [exact I1|].
+      intros [|j] e r H; cbn [nth_error] in H; [discriminate|].
+      replace (i0 + S j)%nat with (S i0 + j)%nat by lia. eapply I2. exact H.
+    + destruct (sorted && _); [discriminate|].
+      destruct (IH _ _ _ E) as [I1 I2]. split.
+      * intros x Hx. apply I1. eapply Permutation_in; [apply Permutation_sym, insert_perm|]. right. exact Hx.
+      * intros [|j] e0 r0 H; cbn [nth_error] in H.
+        -- inversion H; subst. rewrite Nat.add_0_r. apply I1.
+           eapply Permutation_in; [apply Permutation_sym, insert_perm|]. left. reflexivity.
+        -- replace (i0 + S j)%nat with (S i0 + j)%nat by lia. eapply I2. exact H.
+Qed.
+
+Lemma nodup_key (h : list hnode) k k' i : NoDup (hids h) -> In (k, i) h -> In (k', i) h -> k = k'.
+Proof.
+  induction h as [|[k0 i0] t IH]; cbn [hids map snd In]; intros ND H1 H2; [contradiction|].
+  apply NoDup_cons_iff in ND as [Hni ND].
+  destruct H1 as [E1|H1]; destruct H2 as [E2|H2].
+  - congruence.
+  - inversion E1; subst. exfalso. apply Hni. apply in_map_iff. exists (k', i). auto.
+  - inversion E2; subst. exfalso. apply Hni. apply in_map_iff. exists (k, i). auto.
+  - apply IH; auto.
+Qed.
+
+Lemma flat_map_seq_gen {A B} (F : A -> list B) (d : A) (l : list A) : forall k,
+  flat_map (fun i => F (nth (i - k) l d)) (seq k (length l)) = flat_map F l.
+Proof.
+  induction l as [|a t IH]; intros k; [reflexivity|].
+  cbn [length seq flat_map]. rewrite Nat.sub_diag. cbn [nth]. f_equal.
+  rewrite <- (IH (S k)). rewrite !flat_map_concat_map. f_equal. apply map_ext_in.
+  intros i Hi. apply in_seq in Hi. replace (i - k)%nat with (S (i - S k)) by lia. reflexivity.
+Qed.
+
+Lemma flat_map_seq {A B} (F : A -> list B) (d : A) (l : list A) :
+  flat_map F l = flat_map (fun i => F (nth i l d)) (seq 0 (length l)).
+Proof.
+  rewrite <- (flat_map_seq_gen F d l 0). rewrite !flat_map_concat_map. f_equal. apply map_ext.
+  intros i. rewrite Nat.sub_0_r. reflexivity.
+Qed.
+
+Lemma flat_map_ext_seq {B} (f g : nat -> list B) n : (forall i, (i < n)%nat -> f i = g i) ->
+  flat_map f (seq 0 n) = flat_map g (seq 0 n).
+Proof.
+  intros H. rewrite !flat_map_concat_map. f_equal. apply map_ext_in. intros i Hi. apply in_seq in Hi. apply H. lia.
+Qed.
+
+(* after the loop of player_init the gate the C applies is the model's *)
+Theorem gate_link unsorted st ss h s :
+  let sorted := unsorted =? 0 in
+  let offs := map s_off ss in
+  let rem := map s_evs ss in
+  InitOk offs st rem ->
+  pinit sorted offs 0 rem [] = inr h ->
+  m_init_all unsorted (seq 0 (length (streams st))) (player0 unsorted st) = Done tt s ->
+  gate_of (active_clocks s (seq 0 (length (streams s)))) = gate_ok ss.
+Proof.
+  intros sorted offs rem I EP EM.
+  pose proof (init_sim unsorted offs st rem I) as IS. cbv zeta in IS. fold sorted in IS. rewrite EP, EM in IS.
+  destruct IS as [[C _ _] L].
+  destruct I as [Hl Hs].
+  assert (Hr0 : forall j, (0 <= j < length (streams (player0 unsorted st)))%nat ->
+            ~ In j (hids (q_heap (pl (player0 unsorted st)))) /\ g_cur (nth j (streams (player0 unsorted st)) g0) = None).
+  { intros j Hj. cbn [player0 streams pl q_heap hids map] in *. split; [intros []|]. apply (Hs j). lia. }
+  destruct (init_all_facts unsorted (length (streams st)) 0 (player0 unsorted st) s eq_refl Hr0 EM) as (A1 & _ & A3 & _ & _).
+  cbn [player0 streams] in A1, A3.
+  rewrite gate_ok_of. f_equal. unfold active_clocks, first_clocks.
+  rewrite (flat_map_seq _ no_strm ss).
+  assert (Hn : length ss = length (streams st)) by (unfold rem in Hl; rewrite map_length in Hl; exact Hl).
+  rewrite Hn, A3. apply flat_map_ext_seq. intros i Hi.
+  assert (Hrem : nth i rem [] = s_evs (nth i ss no_strm)) by (unfold rem; apply (map_nth s_evs ss no_strm i)).
+  assert (Hoff : nth i offs 0 = s_off (nth i ss no_strm)) by (unfold offs; apply (map_nth s_off ss no_strm i)).
+  pose proof (co_heap _ _ _ _ C) as Hh. cbn [p_heap] in Hh.
+  destruct (pinit_in sorted offs rem 0 [] h EP) as [_ PI].
+  assert (Hir : (i < length rem)%nat) by lia.
+  unfold sclk. destruct (A1 i ltac:(lia)) as [[B1 B2]|(B1 & B2 & B3 & B4)].
+  - rewrite B1. rewrite <- Hrem. destruct (nth i rem []) as [|e r] eqn:E; [reflexivity|].
+    exfalso. apply B2. rewrite Hh. apply (in_hids (corr offs i e)).
+    apply (PI i e r). rewrite (nth_error_nth' rem [] Hir). rewrite E. reflexivity.
+  - rewrite B1, B2. cbn [evview]. fold (evclk (nth i (streams s) g0)). rewrite B3.
+    rewrite Hh in B4. destruct (co_in _ _ _ _ C _ _ B4) as (_ & _ & _ & _ & e & t & E & _). cbn [p_rem] in E.
+    rewrite <- Hrem, E. f_equal.
+    assert (In (corr offs i e, i) h).
+    { apply (PI i e t). rewrite (nth_error_nth' rem [] Hir). rewrite E. reflexivity. }
+    rewrite (nodup_key h _ _ i (co_nodup _ _ _ _ C) B4 H). unfold corr. rewrite Hoff. reflexivity.
+Qed.
+
+(* PlayerDefs.run for the generated code: no hypothesis on the gate any more *)
+Theorem run_from_source unsorted st ss :
+  let sorted := unsorted =? 0 in
+  InitOk (map s_off ss) st (map s_evs ss) ->
+  map clocks_of (fst (m_run unsorted (S (total_events ss)) st)) = map model_clocks (fst (PlayerDefs.run sorted ss)) /\
+  verdict_rel (snd (PlayerDefs.run sorted ss)) (snd (m_run unsorted (S (total_events ss)) st)).
+Proof.
+  intros sorted I. apply run_sim; [exact I|].
+  intros h s EP EM. apply (gate_link unsorted st ss h s I EP EM).
+Qed.
+
+(* m_run is the generated player_init followed by the main loop over the generated player_step *)
+Lemma m_run_init unsorted fuel st sx :
+  m_run unsorted fuel st =
+  match Stepper_gen.player_init (Some tt) (Some tt) unsorted sx st with
+  | Done _ s => m_loop fuel s
+  | Stop s => ([], Stop s)
+  | Fail e => ([], Fail e)
+  end.
+Proof.
+  rewrite player_init_gen. cbv zeta. unfold m_run, player0.
+  destruct (m_init_all unsorted (seq 0 (length (streams st))) _) as [[] s|s|e]; try reflexivity.
+  destruct (unsorted =? 0); cbn [andb]; [|reflexivity].
+  destruct (gate_of _); reflexivity.
 Qed.
